@@ -138,11 +138,57 @@ func schemaTags(t reflect.Type) (tags map[int]bool) {
 var wireName = []string{"BYTE", "SHORT", "INT", "LONG", "FLOAT", "DOUBLE", "STRING1", "STRING4", "MAP", "LIST", "STRUCT", "STRUCTEND", "ZERO", "SIMPLELIST"}
 var allWire = []int{tBYTE, tSHORT, tINT, tLONG, tFLOAT, tDOUBLE, tSTR1, tSTR4, tMAP, tLIST, tSB, tZERO, tSL}
 
+// defaultsOf: every struct-typed member, vector element and map value reset to its declared defaults (structs whose members
+// are all optional are then empty bodies on the wire); containers get one such element
+func defaultsIn(v reflect.Value, depth int) {
+	if depth > 4 {
+		return
+	}
+	switch v.Kind() {
+	case reflect.Struct:
+		if v.CanAddr() {
+			if ts, ok := v.Addr().Interface().(tarsStruct); ok {
+				ts.ResetDefault()
+			}
+		}
+		for i := 0; i < v.NumField(); i++ {
+			if v.Field(i).CanSet() {
+				defaultsIn(v.Field(i), depth+1)
+			}
+		}
+	case reflect.Slice:
+		ek := v.Type().Elem().Kind()
+		if ek == reflect.Struct {
+			v.Set(reflect.MakeSlice(v.Type(), 2, 2))
+			for i := 0; i < v.Len(); i++ {
+				defaultsIn(v.Index(i), depth+1)
+			}
+		}
+	case reflect.Map:
+		if v.Type().Elem().Kind() == reflect.Struct {
+			m := reflect.MakeMap(v.Type())
+			k := reflect.New(v.Type().Key()).Elem()
+			e := reflect.New(v.Type().Elem()).Elem()
+			defaultsIn(e, depth+1)
+			m.SetMapIndex(k, e)
+			v.Set(m)
+		}
+	}
+}
+
 func mutantsFor(s *sink, name string, classes map[string]bool, capPer int) {
+	mutantsForValue(s, name, classes, capPer, false)
+}
+
+func mutantsForValue(s *sink, name string, classes map[string]bool, capPer int, defaults bool) {
 	rng := s.rng
 	mk := registry[name]
 	v := mk()
-	fill(rng, reflect.ValueOf(v).Elem(), 0)
+	if defaults {
+		defaultsIn(reflect.ValueOf(v).Elem(), 0)
+	} else {
+		fill(rng, reflect.ValueOf(v).Elem(), 0)
+	}
 	val := canon(reflect.ValueOf(v))
 	buf := codec.NewBuffer()
 	if err := v.WriteTo(buf); err != nil {
@@ -396,6 +442,7 @@ func mutantsCmd(args []string) error {
 		for i := 0; i < n; i++ {
 			mutantsFor(s, name, classes, *capPer)
 		}
+		mutantsForValue(s, name, classes, *capPer, true) // once with every nested struct at its defaults
 	}
 	for _, w := range s.ws {
 		if err := w.Close(); err != nil {
